@@ -1,3 +1,3 @@
 From Coq Require Extraction ExtrOcamlBasic ExtrOcamlString.
-From MechV Require Import Model.Fmt2.
+From MechV Require Import Model.Fmt3.
 Extraction "ocaml/C08/model.ml" run_line.
